@@ -78,6 +78,71 @@ def _layout(fn, env, ptr_decl, is_writer):
     return sorted(fields), seps, pos[0]
 
 
+def leap_rule(ctx, prog, te, RID):
+    # ---------------- R09.4 the leap-day correction as a decision table, and the shape of the day count it corrects
+    # Proof sketch recorded here (ty = tm_year - 70, years 1970..2099, where leap(y) <=> tm_year % 4 == 0 because 2000 is a leap year):
+    #   days since the epoch  = 365 ty + floor((ty+1)/4) + mon_days[m] + [leap and m >= 2] + d - 1
+    #   the code computes       365 ty + floor((ty+2)/4) + mon_days[m] - [C]             + d - 1
+    #   floor((ty+2)/4) - floor((ty+1)/4) = [leap]  hence the two agree  <=>  C == (leap and m < 2)  for every year and month in range.
+    yr_reads = lambda n: any(x.k == 'MemberExpr' and x.decl['n'] == 'tm_year' for x in n.walk())
+    decs = [n for n in te.all_nodes() if n.k == 'UnaryOperator' and n.op == '--' and te.cfg.has_vertex(n)] + \
+           [n for n in te.all_nodes() if n.k == 'CompoundAssignOperator' and n.op == '-=' and te.cfg.has_vertex(n)]
+    ctx.need(len(decs) == 1, 'time_to_epoch: expected exactly one correction of the day count, found %d (formula rewritten?)' % len(decs))
+    dec = decs[0]
+    tcfg = te.cfg
+    dv = tcfg.vertex_of(dec)
+    wrong = []
+    for y in range(70, 200):
+        for m in range(0, 12):
+            def atom(a, _y=y, _m=m):
+                if a.k == 'MemberExpr' and a.decl['n'] == 'tm_year':
+                    return _y
+                if a.k == 'MemberExpr' and a.decl['n'] == 'tm_mon':
+                    return _m
+                return None
+            def okedge(v, w, lab, _atom=atom):
+                if lab is None or not isinstance(lab[1], bool):
+                    return True
+                c = tcfg.cond_node(lab[0])
+                if c is None:
+                    return True
+                val = q.eval_int(c, {}, atom=_atom)
+                return True if val is None else (bool(val) == lab[1])
+            taken = dv in tcfg.reach_from(tcfg.entry, edge_ok=okedge)
+            want = (y % 4 == 0) and m < 2
+            if taken != want:
+                wrong.append((1900 + y, m + 1, taken))
+    ctx.check(not wrong, RID, 'FIX8::time_to_epoch#leap-correction', dec.loc,
+              'the one-day correction is applied exactly for January/February of leap years, for all 130 years x 12 months in range',
+              'the leap-day correction is %s for %04d-%02d (%d year/month combinations in 1970..2099 disagree with the calendar): dates there parse one day %s'
+              % (('applied' if wrong[0][2] else 'not applied'), wrong[0][0], wrong[0][1], len(wrong), 'early' if wrong[0][2] else 'late') if wrong else None)
+    # shape of the day count: linear in its terms with the coefficients the proof above uses
+    tdecl = None
+    for st in te.all_nodes():
+        if st.k == 'DeclStmt':
+            for dd, init in st.r.get('decls', []):
+                if init >= 0 and q.refers_to_decl(dec.children[0], dd):
+                    tdecl = (dd, te.node(init))
+    ctx.need(tdecl is not None, 'time_to_epoch: initialiser of the corrected day count not found')
+    lf = q.linear(tdecl[1], sym=lambda x: x.text())
+    terms = dict(lf.t)
+    c365 = [v for k, v in terms.items() if v == 365]
+    quarter = [k for k, v in terms.items() if v == 1 and '/ 4' in k.replace('/4', '/ 4') and '+ 2' in k.replace('+2', '+ 2')]
+    tabterm = [k for k, v in terms.items() if v == 1 and 'mon_days' in k]
+    ctx.check(len(c365) == 1 and len(quarter) == 1 and len(tabterm) == 1, RID, 'FIX8::time_to_epoch#day-count-shape', tdecl[1].loc,
+              'day count = mon_days[month] + day-of-month term + 365·years + (years+2)/4 (the form the recorded identity is about)',
+              'the day count `%s` is not the form 365·years + (years+2)/4 + mon_days[month] + day: the recorded calendar identity no longer applies' % lf)
+    tyd = [(dd, te.node(init)) for st in te.all_nodes() if st.k == 'DeclStmt' for dd, init in st.r.get('decls', []) if init >= 0 and
+           any(x.k == 'MemberExpr' and x.decl['n'] == 'tm_year' for x in te.node(init).walk()) and dd != tdecl[0]]
+    if tyd:
+        # years since 1970: tm_year - 70 on the non-zero branch
+        e = tyd[0][1].strip(casts=True)
+        br = e.child('then') if e.k == 'ConditionalOperator' else e
+        l2 = q.linear(br, sym=lambda x: 'Y' if (x.k == 'MemberExpr' and x.decl['n'] == 'tm_year') else x.text())
+        ctx.check(l2.c == -70 and dict(l2.t) == {'Y': 1}, RID, 'FIX8::time_to_epoch#years-since-1970', tyd[0][1].loc, 'years = tm_year − 70',
+                  'years since the epoch computed as `%s`, expected tm_year − 70' % l2)
+
+
 def run(ctx):
     prog = Program(UNITS)
     ctx.units.update(UNITS)
@@ -110,6 +175,7 @@ def run(ctx):
               ('arithmetic overflow for dates within 1970..2099: %s at %s (e.g. any date from 2038-01-19)' % (probs[0][1], probs[0][0].loc)) if probs else None,
               [t + ' @ ' + n.loc for n, t in probs])
 
+    leap_rule(ctx, prog, te, 'R09.4')
     # ---------------- R09.2 layouts
     fmt = prog.fn1('FIX8::date_time_format')
     ctx.saw(fmt)
@@ -186,3 +252,4 @@ def run(ctx):
             ctx.check(cap >= maxlen + 1, 'R09.3', f.q + '#buffer', c.loc, 'print buffer of %d bytes holds the longest layout (%d) + terminator' % (cap, maxlen))
     ctx.need(n_buf >= 3, 'fewer than 3 date_time_format calls into local buffers found (%d)' % n_buf)
     ctx.floor('R09.2', 14)
+    ctx.floor('R09.4', 2)
